@@ -23,6 +23,7 @@ DEFAULT = dict(
     obj=[],         # list of objective term specs
     scales={},      # slot -> scale
     T0=0.7, TT=1.9,
+    concat=False,   # declare the dynamics with one set_der/set_next call on a concatenation of the states
     pvals={},       # overrides of parameter values: pg, pgm, pc (list), TT, T0 (parametric horizon)
     init=[],        # ordered set_initial calls: [target, form, value]
     Tguess=None, t0guess=None,
@@ -38,7 +39,10 @@ def case(**kw):
 
 
 def pc_table(d, which="pc"):
-    """value table of the per-interval parameter: one column per interval (+1 for control+)"""
+    """value table of the per-interval parameter: one column per interval (+1 for control+).
+    which='pcq': the second (always include_last) parameter present when d['pc']=='both'"""
+    if which == "pcq":
+        return np.array([[0.2 + 0.19 * k + 0.04 * k * k for k in range(d["N"] + 1)]])
     n = d["N"] + (1 if d[which] == "control+" else 0)
     base = 0.3 if which == "pc" else 0.2
     return np.array([[base + 0.27 * k + 0.05 * k * k for k in range(n)]])
@@ -52,7 +56,7 @@ def state_shapes(d):
     sh = {"scalar": (1, 1), "vec2": (2, 1), "mat22": (2, 2), "vec3": (3, 1)}[d["state"]]
     out = [("x", sh)]
     if d["second"]:
-        out.append(("y", (1, 1)))
+        out.append(("y", (2, 1) if d["second"] == "vec" else (1, 1)))
     return out
 
 
@@ -85,6 +89,10 @@ def rhs(m, s, d):
             nxt = nxt + s["DT"] * s["pg"] * X
         if d["pc"]:
             nxt = nxt + 0.6 * s["DT"] * s["pc"]
+        if d["pc"] == "both":
+            nxt = nxt + 0.35 * s["DT"] * s["pcq"]
+        if d["vc"] == "both":
+            nxt = nxt + 0.25 * s["DT"] * s["vcq"]
         if d["vg"]:
             nxt = nxt + 0.5 * s["DT"] * s["vg"] * X
         if d["vc"]:
@@ -120,6 +128,10 @@ def rhs(m, s, d):
         dx = dx + m.mtimes(s["pg"], X)
     if d["pc"]:
         dx = dx + 0.6 * s["pc"]
+    if d["pc"] == "both":
+        dx = dx + 0.35 * s["pcq"]
+    if d["vc"] == "both":
+        dx = dx + 0.25 * s["vcq"]
     if d["vg"]:
         dx = dx + 0.5 * s["vg"] * X
     if d["vc"]:
@@ -203,6 +215,17 @@ def c_off2(m, pt, d):
 
 def c_offm2(m, pt, d):
     return ("le", _x0(m, pt) - pt.offset(_x0, -2), 0.6)
+
+
+def c_next_pcq(m, pt, d):
+    # offset operand that contains an include_last per-interval parameter (own entry at the final node)
+    g = lambda m_, p_: _x0(m_, p_) + p_.s["pcq"]
+    return ("le", pt.next(g) - _x0(m, pt), 1.9)
+
+
+def c_next_pc(m, pt, d):
+    g = lambda m_, p_: _x0(m_, p_) * p_.s["pc"]
+    return ("le", pt.next(g) - _x0(m, pt), 1.7)
 
 
 def c_next_u(m, pt, d):
@@ -304,6 +327,10 @@ def o_integral_one(m, pt, d):
 
 def o_integral_pc(m, pt, d):
     return pt.integral(lambda m_, p_: p_.s["pc"] * _x0(m_, p_))
+
+
+def o_integral_pcq(m, pt, d):
+    return pt.integral(lambda m_, p_: p_.s["pc"] * _x0(m_, p_) + 0.7 * p_.s["pcq"] * _x0(m_, p_) * _x0(m_, p_))
 
 
 def o_integral_vc(m, pt, d):
@@ -565,10 +592,14 @@ def declare(d, ocp=None, stage=None, solver=True, method=True, with_cons=True, w
         s["pg"] = ca.MX(ca.DM(np.array(pv0.get("pgm", pgm_value())))) if const_params else st.parameter(2, 2)
     if d["pc"]:
         s["pc"] = st.parameter(grid="control", include_last=(d["pc"] == "control+"))
+    if d["pc"] == "both":
+        s["pcq"] = st.parameter(grid="control", include_last=True)
     if d["vg"]:
         s["vg"] = st.variable(scale=sc.get("vg", 1))
     if d["vc"]:
         s["vc"] = st.variable(grid="control", include_last=(d["vc"] == "control+"), scale=sc.get("vc", 1))
+    if d["vc"] == "both":
+        s["vcq"] = st.variable(grid="control", include_last=True, scale=sc.get("vc", 1))
     if hz == "Tvar":
         s["Tv"] = st.variable()
         st.set_T(s["Tv"])
@@ -583,11 +614,23 @@ def declare(d, ocp=None, stage=None, solver=True, method=True, with_cons=True, w
     s["DT"] = st.DT; s["DT_control"] = st.DT_control
     # dynamics
     f = rhs(CA, s, d)
-    for name, _ in state_shapes(d):
-        if d["intg"] == "set_next":
-            st.set_next(s[name], f[name])
-        else:
-            st.set_der(s[name], f[name], scale=scl("der_" + name, s[name].shape))
+    names = [n for n, _ in state_shapes(d)]
+    setter = st.set_next if d["intg"] == "set_next" else st.set_der
+    lhs = None
+    if d.get("concat") and len(names) > 1 and not any(k.startswith("der_") for k in sc):
+        # one call on a "simple concatenation of states"
+        if all(s[n].shape[1] == 1 for n in names):
+            lhs = ca.vertcat(*[s[n] for n in names]); rhs_ = ca.vertcat(*[ca.MX(f[n]) for n in names])
+        elif all(s[n].shape[0] == s[names[0]].shape[0] for n in names):
+            lhs = ca.horzcat(*[s[n] for n in names]); rhs_ = ca.horzcat(*[ca.MX(f[n]) for n in names])
+    if lhs is not None:
+        setter(lhs, rhs_)
+    else:
+        for name in names:
+            if d["intg"] == "set_next":
+                st.set_next(s[name], f[name])
+            else:
+                st.set_der(s[name], f[name], scale=scl("der_" + name, s[name].shape))
     if d["alg"]:
         st.add_alg(alg(CA, s, d), scale=sc.get("alg", 1))
     # parameter values
@@ -600,6 +643,8 @@ def declare(d, ocp=None, stage=None, solver=True, method=True, with_cons=True, w
         st.set_value(s["pg"], np.array(pv.get("pgm", pgm_value())))
     if d["pc"]:
         st.set_value(s["pc"], np.array(pv.get("pc", pc_table(d))).reshape(1, -1))
+    if d["pc"] == "both":
+        st.set_value(s["pcq"], pc_table(d, "pcq"))
     if hz == "Tparam":
         st.set_value(s["Tp"], pv.get("TT", d["TT"]))
     if hz == "t0param":
